@@ -247,9 +247,10 @@ PROPS['C11'] = dict(
                              Pass('asan', 'h_nnls.asan', 'C11', n(tier, 160, 2000, sc), stall_s=300)],
     level='exploration',
     rule='case = one symmetric positive-definite system (3 of 4 with n in 2..12 and an enumerated optimum, 1 of 4 sparse with n in 20..300) solved by each solver; '
+         'about one system in six is handed over with every variable in a unit of its own (D A0 D, D b0 with D_i = 2^k, |k| up to 27) and judged by (A0, b0) with the stated tolerances converted; '
          'distinct_nontrivial counts distinct (system, solver) pairs',
     assumptions=ASSUME_COMMON + ['tolerance on the gradient: stated dual tolerance + 64 n eps (|A||x|+|b|); distance bound 4 sqrt(n)(tau+|A| t)/lambda_min'],
-    require={'any': {'oracle-solutions': 200, 'problems-degenerate': 50, 'problems-large(KKT-only)': 50, 'solves:nnls_normal_block3': 300, 'solves:nnls_lawson_hanson(ls)': 50}},
+    require={'any': {'oracle-solutions': 200, 'problems-degenerate': 50, 'problems-large(KKT-only)': 50, 'solves:nnls_normal_block3': 300, 'solves:nnls_lawson_hanson(ls)': 50, 'problems-with-a-unit-per-variable': 40}},
 )
 
 
